@@ -735,7 +735,7 @@ def execute_server(case):
                 answers, ok2 = project([(raw, dest) for _, raw, dest in st['msgs']], True)
                 okt = okt and ok2
                 te = {'ev': st['kind'], 'listening': sorted(idx(p) for p in st['listening']), 'announce': [],
-                      'probed': st['probed'], 'answers': answers, 'ok': ok2, 'error': ''}
+                      'probed': st['probed'], 'unicast': [], 'answers': answers, 'ok': ok2, 'error': ''}
                 if st['kind'] == 'close_iface':
                     te['i'] = idx(st['port'])
                 trace.append(te)
@@ -745,8 +745,16 @@ def execute_server(case):
                 new = [m for s_ in w.sockets if id(s_) not in seen for m in s_.sent]
             announce, ok1 = project(new, False)
             probed = not w.pending()
+            unicast = []        # first one unicast request per socket of the reuse-port group, then a broadcast one
+            ok3 = True
+            for got in (w.probe_unicast(sender) if probed else []):
+                pairs, okk = project([(raw, dest) for _, raw, dest in got], True)
+                unicast.append(pairs)
+                ok3 = ok3 and okk
             answers, ok2 = project([(raw, dest) for _, raw, dest in w.probe(sender)], True) if probed else ([], True)
+            ok2 = ok2 and ok3
             ev = {'ev': op, 'listening': sorted(idx(p) for p in w.listening), 'announce': announce, 'probed': probed,
+                  'unicast': unicast,
                   'answers': answers, 'ok': ok1 and ok2 and okt, 'error': w.error, 'responders': w.running_responders()}
             if op == 'boot':
                 ev['cfg'] = list(case['schemes'])
@@ -1076,7 +1084,7 @@ def run(chk):
     devs += [(dev, inv, ex.submit(run_tlc, 'DiscoveryServer', 'MC_DiscoveryServer_asimpl_%s.cfg' % dev, timeout=300,
                                   workers=1))
              for dev, inv in (('restart', 'OneResponder'), ('ports', 'AnswersTrue'), ('sticky', 'AnswersTrue'),
-                              ('guarded', 'OneResponder'), ('order', 'AnswersTrue'))]
+                              ('guarded', 'OneResponder'), ('order', 'AnswersTrue'), ('closeonly', 'OneResponder'))]
     gen_srv = ex.submit(emit_behaviours, 'Gen_DiscoveryServer', 'Gen_DiscoveryServer_quick.cfg' if quick else
                         'Gen_DiscoveryServer_thorough.cfg', maximal_only=False, timeout=300)
     cfg = 'Gen_Discovery_build_quick.cfg' if quick else 'Gen_Discovery_build_thorough.cfg'
